@@ -35,9 +35,12 @@ func Main() {
 }
 
 type scenario struct {
-	Replicas  int   `json:"replicas"`
-	Oversized bool  `json:"oversized"`
-	Choices   []int `json:"choices,omitempty"`
+	Replicas  int  `json:"replicas"`
+	Oversized bool `json:"oversized"`
+	// Requests > 1: that many Topology.Vacuum calls race (every RPC answers its default
+	// outcome); at most one round may be in flight, the others must be turned away.
+	Requests int   `json:"requests,omitempty"`
+	Choices  []int `json:"choices,omitempty"`
 }
 
 type replica struct {
@@ -49,10 +52,11 @@ type replica struct {
 }
 
 type world struct {
-	reps     map[string]*replica
-	order    []string
-	outcomes []string // chosen outcomes, in issue order
+	reps      map[string]*replica
+	order     []string
+	outcomes  []string // chosen outcomes, in issue order
 	badCommit string
+	fixed     bool // every RPC answers its default outcome (racing-requests scenarios)
 }
 
 type fakeClient struct {
@@ -67,7 +71,10 @@ var commitOutcomes = []string{"ok", "ok-readonly", "error"}
 var cleanupOutcomes = []string{"ok", "error"}
 
 func (c *fakeClient) choose(phase string, menu []string) string {
-	o := menu[vsched.Choose(phase, len(menu), 0)]
+	o := menu[0]
+	if !c.w.fixed {
+		o = menu[vsched.Choose(phase, len(menu), 0)]
+	}
 	c.w.outcomes = append(c.w.outcomes, fmt.Sprintf("%s@%s=%s", phase, c.rep.url, o))
 	c.rep.log = append(c.rep.log, phase+":"+o)
 	if o == "hang" {
@@ -142,7 +149,7 @@ func writable(vl *topology.VolumeLayout, vid needle.VolumeId) bool {
 }
 
 func execute(sc scenario, o *obs) {
-	w := &world{reps: map[string]*replica{}}
+	w := &world{reps: map[string]*replica{}, fixed: sc.Requests > 1}
 	o.w = w
 	topo := topology.NewTopology("t", sequence.NewMemorySequencer(), sizeLimit, 5, false)
 	rack := topo.GetOrCreateDataCenter("dc1").GetOrCreateRack("r1")
@@ -169,12 +176,42 @@ func execute(sc scenario, o *obs) {
 		}
 		return &fakeClient{w: w, rep: r}
 	}
-	topo.Vacuum(grpc.WithInsecure(), 0.3, 0)
+	if sc.Requests > 1 {
+		done := 0
+		for i := 0; i < sc.Requests; i++ {
+			vsched.Go(func() {
+				topo.Vacuum(grpc.WithInsecure(), 0.3, 0)
+				done++
+			})
+		}
+		vsched.PointWhen("join", func() bool { return done == sc.Requests })
+	} else {
+		topo.Vacuum(grpc.WithInsecure(), 0.3, 0)
+	}
 	o.after = writable(vl, 1)
+}
+
+// roundsOverlap: with every RPC answering its default outcome a replica's RPC log must be
+// repetitions of check, compact, commit; anything else means two rounds were in flight together.
+func roundsOverlap(w *world) string {
+	want := []string{"check:above", "compact:ok", "commit:ok"}
+	for _, u := range w.order {
+		for i, e := range w.reps[u].log {
+			if e != want[i%3] {
+				return fmt.Sprintf("%s: rpc log %v", u, w.reps[u].log)
+			}
+		}
+	}
+	return ""
 }
 
 func judge(sc scenario, o *obs) (string, string) {
 	w := o.w
+	if sc.Requests > 1 {
+		if ov := roundsOverlap(w); ov != "" {
+			return "racing-requests:two-vacuum-rounds-in-flight", ov
+		}
+	}
 	if w.badCommit != "" {
 		return "commit-without-successful-compact", fmt.Sprintf("commit reached %s whose compaction did not succeed; outcomes %v", w.badCommit, w.outcomes)
 	}
@@ -222,6 +259,17 @@ func judge(sc scenario, o *obs) (string, string) {
 
 func cfg(s *vsched.Sched) { s.TimerCost = 1 }
 
+// racing-requests scenarios: every RPC answers at once, so a wait timer firing first is not a
+// behaviour of interest there (and would make the per-replica RPC grammar ambiguous)
+func cfgNoTimers(s *vsched.Sched) { s.TimerCost = 1000 }
+
+func cfgFor(sc scenario) func(*vsched.Sched) {
+	if sc.Requests > 1 {
+		return cfgNoTimers
+	}
+	return cfg
+}
+
 func run(r *mc.Run) {
 	mc.QuietGlog()
 	r.Assume("replica model: compaction changes the revision, never the live content; a commit without a preceding successful compaction corrupts the replica")
@@ -232,7 +280,7 @@ func run(r *mc.Run) {
 			mc.Fatal("replay: %v", err)
 		}
 		var o obs
-		x, _ := mc.RunOne(sc.Choices, nil, 5000, cfg, func() { o = obs{}; execute(sc, &o) })
+		x, _ := mc.RunOne(sc.Choices, nil, 5000, cfgFor(sc), func() { o = obs{}; execute(sc, &o) })
 		voperation.ClientFor = nil
 		if x.Sched.Outcome != "" {
 			r.Violate("sched-"+strings.SplitN(x.Sched.Outcome, ":", 2)[0], x.Sched.Outcome, sc, nil)
@@ -247,11 +295,17 @@ func run(r *mc.Run) {
 			all = append(all, scenario{Replicas: n, Oversized: ov})
 		}
 	}
+	// racing Vacuum requests (the round lock): 3 requests, 1 or 2 replicas
+	racing := []scenario{{Replicas: 1, Requests: 3}, {Replicas: 2, Requests: 3}, {Replicas: 1, Requests: 2}}
 	bound := r.Pick(1, 2)
 	r.Set("preemption_bound", fmt.Sprintf("%d (one less with 3 replicas; quick: 3 replicas not oversized only)", bound))
 	if r.Quick() {
 		all = all[:5]
 	}
+	if r.Quick() {
+		racing = racing[:1]
+	}
+	all = append(all, racing...)
 	r.WorkerProcs = 1
 	r.Parallel("sched", len(all), func(shard, n int) {
 		for i, sc := range all {
@@ -262,6 +316,9 @@ func run(r *mc.Run) {
 			if sc.Replicas == 3 {
 				b--
 			}
+			if sc.Requests > 1 {
+				b = 2 // the third request has to slip in after the second cleared the lock
+			}
 			explore(r, sc, b)
 		}
 	})
@@ -269,7 +326,7 @@ func run(r *mc.Run) {
 
 func explore(r *mc.Run, sc scenario, bound int) {
 	var o obs
-	st := mc.Explore(bound, 5000, cfg,
+	st := mc.Explore(bound, 5000, cfgFor(sc),
 		func() { o = obs{}; execute(sc, &o) },
 		func(x *mc.Exec) {
 			w := sc
@@ -289,7 +346,7 @@ func explore(r *mc.Run, sc scenario, bound int) {
 			if cl != "" {
 				r.Violate(cl, msg, w, func() bool {
 					var o2 obs
-					mc.RunOne(w.Choices, nil, 5000, cfg, func() { o2 = obs{}; execute(sc, &o2) })
+					mc.RunOne(w.Choices, nil, 5000, cfgFor(sc), func() { o2 = obs{}; execute(sc, &o2) })
 					c2, _ := judge(sc, &o2)
 					return c2 == cl
 				})
